@@ -11,14 +11,14 @@ variable {T D : Type}
 /-- **C03_infer_sound** (L0, L1, L2, L3): the cast datum is contained in the inferred type, and
 detecting the cast datum (identity relations only, from the root) yields exactly the inferred type
 and returns the datum unchanged. -/
-theorem C03_infer_sound (ts : TS T D) {I : D → Prop} (wf : ts.WF I) (root : T) (hroot : ∀ t, IdPath ts root t)
+theorem C03_infer_sound (ts : TS T D) {I : D → Prop} (wf : ts.WF I) (root : T) (N : T → Prop) (hN : Nodes ts N root)
     (f : Nat) (hf : ts.h root < f) (x : D) (hI : I x) (hx : ts.contains root x = true) :
     let res := ptraverse ts.succ f root x
     let t := plast root res.2
     ts.contains t res.1 = true ∧
     (ptraverse ts.idSucc f root res.1).1 = res.1 ∧
     plast root (ptraverse ts.idSucc f root res.1).2 = t :=
-  infer_sound ts wf root hroot f hf x hI hx
+  infer_sound ts wf root N hN f hf x hI hx
 
 /-- every coercion taken on the way lands inside its target type: the datum is in every type of
 the path at the moment it is reached (stated for the end point by `C03_infer_sound`; for every
@@ -32,38 +32,16 @@ end V.C03
 namespace V.C03
 open V V.Gen V.Pd
 
-/-- the named hypotheses under which the pandas relations land (each validated by α on every
-generated column): a complex cell is missing iff its payload is NaN; a `str` element is never
-missing; `pd.to_datetime` on the whole column finds a timestamp (library hypothesis) -/
-structure LandsHyp (o : ColOracle) (c : Column) : Prop where
-  pay : ∀ x ∈ c.cells, PayWF x
-  strNotNull : StrNotNull c
-  dt : DtLands o c
-
 /-- **C03_lands_pandas** (L3): for every one of the 14 inference relations of the generated table,
 on every column of its source type: if the relation's test accepts and its transformer returns, the
-result is contained in the target type. -/
+result is contained in the target type — under the named hypotheses `LandsHyp` (a complex cell is
+missing iff its payload is NaN; a `str` element is never missing; `pd.to_datetime` on the whole
+column finds a timestamp). -/
 theorem C03_lands_pandas (o : ColOracle) (src dst : Ty) (g : Column → R Bool) (t : Column → R Column)
     (hg : Pd.guard o src dst = some g) (ht : Pd.xform o src dst = some t)
     (c c' : Column) (hyp : LandsHyp o c) (hsrc : containsB src c = true)
-    (hacc : g c = .ok true) (hx : t c = .ok c') : containsB dst c' = true := by
-  unfold Pd.guard at hg
-  unfold Pd.xform at ht
-  split at hg <;> (try cases hg) <;> simp only at ht <;> cases ht
-  · exact lands_object_boolean c c' hsrc hx
-  · exact lands_string_boolean c c' hsrc hacc hx
-  · exact lands_string_complex c c' hsrc hx
-  · exact lands_string_datetime o c c' hyp.dt hx
-  · exact lands_string_float c c' hacc hx
-  · exact lands_complex_float c c' hyp.pay hsrc hacc hx
-  · exact lands_float_integer c c' hsrc hx
-  · exact lands_datetime_date c c' hsrc hacc hx
-  · exact lands_string_geometry c c' hsrc hyp.strNotNull hx
-  · exact lands_string_ip c c' hsrc hyp.strNotNull hx
-  · exact lands_string_path c c' hsrc hyp.strNotNull hacc hx
-  · exact lands_string_url c c' hsrc hyp.strNotNull hx
-  · exact lands_string_uuid c c' hsrc hyp.strNotNull hx
-  · exact lands_string_email c c' hsrc hyp.strNotNull hx
+    (hacc : g c = .ok true) (hx : t c = .ok c') : containsB dst c' = true :=
+  lands_pandas o src dst g t hg ht c c' hyp hsrc hacc hx
 
 /-! non-vacuity: the property's own example — '1.0' → 1.0 → 1 — and 1.5 stays a Float -/
 example : floatToInteger ⟨.fam .float, [Cell.ofFloat (.fin 1 0)], ["0"], "None"⟩
